@@ -67,6 +67,15 @@ func (p *pending) wait(d time.Duration) bool {
 	}
 }
 
+// waitSinceStart waits until d has passed since the call was started.
+func (p *pending) waitSinceStart(d time.Duration) bool {
+	rem := d - time.Since(p.start)
+	if rem < 0 {
+		rem = 0
+	}
+	return p.wait(rem)
+}
+
 func (p *pending) returned() bool {
 	select {
 	case <-p.done:
